@@ -104,10 +104,26 @@ func (f *frame) instr(in ssa.Instruction, st *bstate) {
 		vc.note("abstracted: go statement in " + f.fn.String())
 		f.escapeArgs(x.Common(), st)
 	case *ssa.Send:
+		if f.cancellable && f.caller == nil {
+			f.oblige(st, "cancellable", "send outside a select that waits for cancellation", "false", x.Pos())
+		}
 		vc.note("abstracted: channel send in " + f.fn.String())
 		f.havocAll(st, "send")
 	case *ssa.Select:
 		vc.note("abstracted: select in " + f.fn.String())
+		if x.Blocking && f.cancellable && f.caller == nil {
+			ok := false
+			for _, s := range x.States {
+				if s.Dir == types.RecvOnly && f.isCancelChan(s.Chan) {
+					ok = true
+				}
+			}
+			goal := "false"
+			if ok {
+				goal = "true"
+			}
+			f.oblige(st, "cancellable", "blocking select has a cancellation case", goal, x.Pos())
+		}
 		if x.Blocking {
 			// the goroutine may wait here: whatever other goroutines do meanwhile
 			f.havocAll(st, "select")
@@ -661,6 +677,9 @@ func (f *frame) unop(x *ssa.UnOp, st *bstate) {
 			f.setVal(x, TV{T: "(- (- " + v.T + ") 1)", S: v.S, Ty: x.Type()})
 		}
 	case token.ARROW:
+		if f.cancellable && f.caller == nil && !f.isCancelChan(x.X) {
+			f.oblige(st, "cancellable", "receive outside a select that waits for cancellation", "false", x.Pos())
+		}
 		vc.note("abstracted: channel receive in " + f.fn.String())
 		f.havocAll(st, "recv")
 		f.setVal(x, f.havocValue(st, f.id+x.Name(), x.Type()))
@@ -1264,4 +1283,52 @@ func escapeSites(a ssa.Value) (sites []ssa.Instruction, ok bool) {
 func isPointerType(t types.Type) bool {
 	_, ok := t.Underlying().(*types.Pointer)
 	return ok
+}
+
+// isCancelChan: the channel is the result of Done() on a context, or the value
+// of one of the fields listed in the function's cancellable clause.
+func (f *frame) isCancelChan(v ssa.Value) bool {
+	switch x := v.(type) {
+	case *ssa.Call:
+		c := x.Common()
+		if c.IsInvoke() && c.Method.Name() == "Done" {
+			if n, ok := c.Value.Type().(*types.Named); ok && n.Obj().Pkg() != nil && n.Obj().Pkg().Path() == "context" && n.Obj().Name() == "Context" {
+				return true
+			}
+		}
+	case *ssa.UnOp:
+		if x.Op == token.MUL {
+			if fa, ok := x.X.(*ssa.FieldAddr); ok {
+				return f.cancelFieldName(fa.X.Type(), fa.Field)
+			}
+		}
+	case *ssa.Field:
+		return f.cancelFieldName(x.X.Type(), x.Field)
+	case *ssa.ChangeType:
+		return f.isCancelChan(x.X)
+	case *ssa.Phi:
+		for _, e := range x.Edges {
+			if !f.isCancelChan(e) {
+				return false
+			}
+		}
+		return len(x.Edges) > 0
+	}
+	return false
+}
+
+func (f *frame) cancelFieldName(t types.Type, idx int) bool {
+	if p, ok := t.Underlying().(*types.Pointer); ok {
+		t = p.Elem()
+	}
+	st, ok := t.Underlying().(*types.Struct)
+	if !ok || idx >= st.NumFields() {
+		return false
+	}
+	for _, n := range f.cancelFields {
+		if st.Field(idx).Name() == n {
+			return true
+		}
+	}
+	return false
 }
